@@ -94,12 +94,19 @@ def _run(cfg):
     rnd = random.Random(cfg["seed"] + 3)
     t0 = cfg.get("t0", 1)
     queries = set(cfg.get("queries", ()))
+    midq = set(cfg.get("midq", ()))
     for i in range(T):
         pt = rec.pull(t0 + i)
         if rec.failed:
             break
         rec.events[-1]["best"] = arms.which(pt)
         arms.diff(rec.events[-1])
+        if i in midq:
+            pt2 = rec.glp()
+            if rec.failed:
+                break
+            rec.events[-1]["best"] = arms.which(pt2)
+            arms.diff(rec.events[-1])
         r = grid_reward(cfg["pattern"], rnd, RU, pt, box)
         rec.recv(t0 + i, r, rcode=int(round(r * RU)))
         if rec.failed:
